@@ -145,6 +145,16 @@ func byzOrchCatalogue(e common.Env) []ocase {
 		add(kind+" N=3 equivocate+reflect + outsider vouching", []uint16{1, 2, 3}, mp, sign, map[uint16]*byzPlan{1: {RouteVersion: map[uint8][]uint16{1: {2}, 2: {3}}, ReflectAcks: true}},
 			[]outsiderPlan{{ID: 9, Tap: 2, Victims: []uint16{2}}, {ID: 9, Tap: 3, Victims: []uint16{3}}}, []uint16{1}, map[uint16]int{1: 2}, e.Pick(2000, 20000), smp)
 	}
+	// key generation with a threshold below n-1: every party takes part, so a broadcast still needs the vouchers of all the others
+	lowT := func(name string, ids []uint16, t int, byz map[uint16]*byzPlan, limit, samples int) {
+		add(name, ids, nil, false, byz, nil, []uint16{1}, map[uint16]int{1: 2}, limit, samples)
+		out[len(out)-1].cfg.Threshold = t
+	}
+	lowT("dkg N=4 t=1 equivocate 2|3,4", []uint16{1, 2, 3, 4}, 1, map[uint16]*byzPlan{1: {RouteVersion: map[uint8][]uint16{1: {2}, 2: {3, 4}}}}, lim4, smp)
+	lowT("dkg N=4 t=2 equivocate 2,3|4 +accomplice-reflector", []uint16{1, 2, 3, 4, 5}, 2, map[uint16]*byzPlan{1: {RouteVersion: map[uint8][]uint16{1: {2, 3}, 2: {4}}, ReflectAcks: true}, 5: {ReflectAcks: true, Mute: true}}, lim4, smp)
+	lowT("dkg N=5 t=2 equivocate 2,3|4,5", []uint16{1, 2, 3, 4, 5}, 2, map[uint16]*byzPlan{1: {RouteVersion: map[uint8][]uint16{1: {2, 3}, 2: {4, 5}}}}, lim4, smp)
+	lowT("dkg N=5 t=3 equivocate 2,3|4,5 +reflect", []uint16{1, 2, 3, 4, 5}, 3, map[uint16]*byzPlan{1: {RouteVersion: map[uint8][]uint16{1: {2, 3}, 2: {4, 5}}, ReflectAcks: true}}, lim4, smp)
+	lowT("dkg N=6 t=2 equivocate 2,3|4,5,6", []uint16{1, 2, 3, 4, 5, 6}, 2, map[uint16]*byzPlan{1: {RouteVersion: map[uint8][]uint16{1: {2, 3}, 2: {4, 5, 6}}}}, 0, smp)
 	return out
 }
 
